@@ -48,7 +48,11 @@ def tasks(tier, seed):
         for limit in ((2,) if tier == "quick" else (1, 2)):
             out.append({"key": f"A/{solver}/R1/limit{limit}/n4", "part": "A", "solver": solver, "R": 1, "limit": limit, "P": 1, "n": 4,
                         "gap": "exploitability"})
+    # seven players: 119 explorable coalitions - more than one machine word of ids / bit positions (quick: one run, strict superadditivity
+    # keeps it to a single path)
+    out.append({"key": "A/largest/R1/limit2/n7", "part": "A", "solver": "largest", "R": 1, "limit": 2, "P": 1, "n": 7, "gap": "l1_norm", "strict": True})
     if tier == "thorough":
+        out.append({"key": "A/largest/R1/limit3/n7/exploitability", "part": "A", "solver": "largest", "R": 1, "limit": 3, "P": 1, "n": 7, "gap": "exploitability", "strict": True})
         for P in (1, 2, 3):
             out.append({"key": f"B/largest/R4/P{P}/n4", "part": "B", "solver": "largest", "R": 4, "limit": 2, "P": P, "n": 4, "gap": "l1_norm"})
     # hidden games of ANY class (the recorded gap may be negative when the bounds cross): the rows must still be the true gaps
@@ -77,7 +81,9 @@ def setup(params, inp, lg):
         v = _draw(inp, d, n)
         if params.get("anyclass"):
             continue
-        ass += F.strict_sa_constraints(v, n, lg) if params["part"] == "B" else F.sa_constraints(v, n, lg)
+        if n >= 7 and d not in (1, 2, 3):
+            continue          # only the draws a single repetition can see are constrained (the others never enter a term)
+        ass += F.strict_sa_constraints(v, n, lg) if (params["part"] == "B" or params.get("strict")) else F.sa_constraints(v, n, lg)
     return ass
 
 
